@@ -41,17 +41,21 @@ pub struct Obs {
     pub out: Option<RetOut>,
     pub events: Vec<Ev>,
     pub ledger: Vec<(String, u32)>,
+    /// per argument of the called method: `get_arg_passable_by_ref`
+    pub by_ref: Vec<bool>,
 }
 
-pub fn observe(p: &Pair, spec: &CallSpec) -> Obs {
+pub fn observe(p: &Pair, spec: &CallSpec, sink_fd: i32) -> Obs {
     let ctx = Ctx::new();
+    ctx.sink_fd.store(sink_fd, std::sync::atomic::Ordering::Relaxed);
     let mut conn = match p.drv.connect(&ctx, ConnMode::AbiTo(p.imp)) {
         Ok(c) => c,
-        Err(e) => return Obs { connect_err: Some(e), out: None, events: vec![], ledger: vec![] },
+        Err(e) => return Obs { connect_err: Some(e), out: None, events: vec![], ledger: vec![], by_ref: vec![] },
     };
+    let by_ref = (0..spec.args.len()).map(|a| conn.passable_by_ref(&spec.method, a).unwrap_or(false)).collect();
     let out = conn.call(spec);
     drop(conn);
-    Obs { connect_err: None, out: Some(out), events: ctx.events(), ledger: ctx.ledger().into_iter().map(|t| (t.label, t.drops)).collect() }
+    Obs { connect_err: None, out: Some(out), events: ctx.events(), ledger: ctx.ledger().into_iter().map(|t| (t.label, t.drops)).collect(), by_ref }
 }
 
 fn all_edits(fam: &Family, mc: &Method, mi: Option<&Method>, kc: u32, ki: u32) -> (String, String, String) {
@@ -84,8 +88,40 @@ fn all_edits(fam: &Family, mc: &Method, mi: Option<&Method>, kc: u32, ki: u32) -
     (joined(&arg_edits), joined(&ret_edits), joined(&cl_edits))
 }
 
+/// Where did a call stop, judged from the events recorded before it failed: which transfer was
+/// in progress (arguments to the implementation, closure arguments back to the caller, a
+/// closure's result to the implementation, the return value to the caller, ...)
+fn stopped_at(events: &[Ev], spec: &CallSpec, mi: Option<&Method>) -> &'static str {
+    let last = events.iter().rev().find(|e| !e.k.starts_with("harness"));
+    let planned = mi.map_or(false, |mi| spec.imp.plans.iter().enumerate().any(|(ai, p)| !p.is_empty() && mi.args.get(ai).map_or(false, |a| a.kind.sig().is_some())));
+    match last {
+        None => "argument",
+        Some(e) if e.k == "caller.closure" => "closure_return",
+        Some(e) if e.k == "retfn.invoked" => "returned_closure_return",
+        Some(e) if e.k == "caller.ret_closure.result" => "returned_closure_argument",
+        Some(e) if e.k == "impl.cb_result" => {
+            // between two closure invocations or after the last one
+            let done = events.iter().filter(|e| e.k == "impl.cb_result").count();
+            let total: usize = mi.map_or(0, |mi| spec.imp.plans.iter().enumerate().filter(|(ai, _)| mi.args.get(*ai).map_or(false, |a| a.kind.is_callback())).map(|(_, p)| p.len()).sum());
+            if done < total {
+                "closure_argument"
+            } else {
+                "return"
+            }
+        }
+        Some(e) if e.k.starts_with("impl.call") && planned => "closure_argument",
+        _ => "return",
+    }
+}
+
 /// Evaluate one call across the pair. All oracle failures are returned.
-pub fn eval(p: &Pair, spec: &CallSpec, st: &mut Stats, counting: bool) -> Vec<Fail> {
+pub type Srv<'a> = crate::iso::Server<'a, CallSpec, Obs>;
+
+pub fn server<'a>(p: &'a Pair<'a>) -> Srv<'a> {
+    crate::iso::Server::new(20_000, move |spec: CallSpec, fd| observe(p, &spec, fd))
+}
+
+pub fn eval(p: &Pair, srv: &mut Srv, spec: &CallSpec, st: &mut Stats, counting: bool) -> Vec<Fail> {
     let fam = p.fam;
     let (kc, ki) = (fam.revs[p.caller].version, fam.revs[p.imp].version);
     let rel = relation(kc, ki);
@@ -93,9 +129,9 @@ pub fn eval(p: &Pair, spec: &CallSpec, st: &mut Stats, counting: bool) -> Vec<Fa
     let base = json!({"family": fam.name, "caller": fam.revs[p.caller].module, "implementation": fam.revs[p.imp].module, "caller_version": kc, "implementation_version": ki});
     let (_, mc) = fam.revs[p.caller].method(&spec.method).expect("method");
     let mi = fam.revs[p.imp].method(&spec.method).map(|x| x.1);
-    let obs_ = match crate::iso::isolated(20_000, || observe(p, spec)) {
+    let obs_ = match srv.call(spec) {
         crate::iso::Iso::Done(o) => o,
-        crate::iso::Iso::Crashed { signal, exit, stderr } => {
+        crate::iso::Iso::Crashed { signal, exit, stderr, streamed } => {
             let cause = if stderr.contains("memory allocation of") || stderr.contains("capacity overflow") {
                 "absurd_allocation"
             } else if stderr.contains("non-unwinding panic") || stderr.contains("cannot unwind") {
@@ -105,11 +141,13 @@ pub fn eval(p: &Pair, spec: &CallSpec, st: &mut Stats, counting: bool) -> Vec<Fa
             } else {
                 "other"
             };
+            let evs: Vec<Ev> = streamed.iter().filter_map(|l| serde_json::from_str(l).ok()).collect();
             let (ae, re, ce) = all_edits(fam, mc, mi, kc, ki);
+            let dir = stopped_at(&evs, spec, mi);
             fails.push(fail(
-                &[("check", "process_abort"), ("relation", rel), ("cause", cause), ("arg_edits", &ae), ("ret_edits", &re), ("closure_edits", &ce)],
+                &[("check", "process_abort"), ("direction", dir), ("relation", rel), ("cause", cause)],
                 format!("{}: the process died during the call (signal {}, exit {}): {}", spec.method, signal, exit, stderr.trim()),
-                json!({"pair": base, "signal": signal, "stderr": stderr}),
+                json!({"pair": base, "signal": signal, "stderr": stderr, "events_before_death": render_events(&evs), "edits": {"arguments": ae, "return": re, "closures": ce}}),
             ));
             if counting {
                 st.evaluations += 1;
@@ -117,7 +155,7 @@ pub fn eval(p: &Pair, spec: &CallSpec, st: &mut Stats, counting: bool) -> Vec<Fa
             }
             return fails;
         }
-        crate::iso::Iso::TimedOut { stderr } => {
+        crate::iso::Iso::TimedOut { stderr, .. } => {
             fails.push(fail(&[("check", "HARNESS_case_timeout")], format!("{}: case did not finish within 20 s: {}", spec.method, stderr), json!(null)));
             return fails;
         }
@@ -177,7 +215,7 @@ pub fn eval(p: &Pair, spec: &CallSpec, st: &mut Stats, counting: bool) -> Vec<Fa
     match call_ev {
         None => {
             fails.push(fail(
-                &[("check", "call_not_delivered"), ("direction", "argument"), ("relation", rel), ("edits", &joined(&arg_edits))],
+                &[("check", "call_not_delivered"), ("direction", "argument"), ("relation", rel)],
                 format!("{}: the implementation was never entered; caller got {}", spec.method, out.render()),
                 obs(json!(null)),
             ));
@@ -192,8 +230,8 @@ pub fn eval(p: &Pair, spec: &CallSpec, st: &mut Stats, counting: bool) -> Vec<Fa
                             ("check", "argument_value_version"),
                             ("direction", "argument"),
                             ("relation", rel),
-                            ("edits", &joined(&fam.edits_between(&t, kc, ki))),
                             ("arg_kind", a.kind.label()),
+                            ("passed_by_pointer", if obs_.by_ref.get(ai).copied().unwrap_or(false) { "true" } else { "false" }),
                         ],
                         format!(
                             "{} argument {}: caller (v{}) passed {}; implementation (v{}) must observe {} but observed {}",
@@ -236,7 +274,7 @@ pub fn eval(p: &Pair, spec: &CallSpec, st: &mut Stats, counting: bool) -> Vec<Fa
                     let want: Vec<DV> = s.args.iter().zip(call_args).map(|(x, v)| fam.convert(&x.ty, v, ki, kc)).collect();
                     if seen.d[..seen.d.len() - 1] != want[..] {
                         fails.push(fail(
-                            &[("check", "closure_argument_version"), ("direction", "closure_argument"), ("relation", rel), ("edits", &joined(&cl_edits))],
+                            &[("check", "closure_argument_version"), ("direction", "closure_argument"), ("relation", rel)],
                             format!(
                                 "{}: closure argument {} invocation {}: implementation passed {:?}; caller's closure must observe {:?} but observed {:?}",
                                 spec.method,
@@ -260,7 +298,7 @@ pub fn eval(p: &Pair, spec: &CallSpec, st: &mut Stats, counting: bool) -> Vec<Fa
                             break;
                         }
                         fails.push(fail(
-                            &[("check", "closure_return_version"), ("direction", "closure_return"), ("relation", rel), ("edits", &joined(&cl_edits))],
+                            &[("check", "closure_return_version"), ("direction", "closure_return"), ("relation", rel)],
                             format!(
                                 "{}: closure argument {} invocation {}: caller's closure returned {}; implementation must receive {} but received {}",
                                 spec.method,
@@ -288,7 +326,7 @@ pub fn eval(p: &Pair, spec: &CallSpec, st: &mut Stats, counting: bool) -> Vec<Fa
                 (RetOut::Val(got), Some(want)) => {
                     if *got != want {
                         fails.push(fail(
-                            &[("check", "return_value_version"), ("direction", "return"), ("relation", rel), ("edits", &joined(&ret_edits)), ("ret_kind", mi.ret.label())],
+                            &[("check", "return_value_version"), ("direction", "return"), ("relation", rel), ("ret_kind", mi.ret.label())],
                             format!(
                                 "{}: implementation (v{}) returned {}; caller (v{}) must receive {} but received {}",
                                 spec.method,
@@ -319,7 +357,7 @@ pub fn eval(p: &Pair, spec: &CallSpec, st: &mut Stats, counting: bool) -> Vec<Fa
                                 let want: Vec<DV> = s.args.iter().zip(call_args).map(|(x, v)| fam.convert(&x.ty, v, kc, ki)).collect();
                                 if invoked.get(n).map(|e| &e.d) != Some(&want) {
                                     fails.push(fail(
-                                        &[("check", "closure_argument_version"), ("direction", "returned_closure_argument"), ("relation", rel), ("edits", &joined(&e2))],
+                                        &[("check", "closure_argument_version"), ("direction", "returned_closure_argument"), ("relation", rel)],
                                         format!(
                                             "{}: returned closure invocation {}: caller passed {:?}; implementation's closure must observe {:?} but observed {:?}",
                                             spec.method,
@@ -335,7 +373,7 @@ pub fn eval(p: &Pair, spec: &CallSpec, st: &mut Stats, counting: bool) -> Vec<Fa
                                 let want_r = fam.convert(&s.ret, rv.as_ref().unwrap(), ki, kc);
                                 if results.get(n).map(|e| &e.d[0]) != Some(&want_r) {
                                     fails.push(fail(
-                                        &[("check", "closure_return_version"), ("direction", "returned_closure_return"), ("relation", rel), ("edits", &joined(&e2))],
+                                        &[("check", "closure_return_version"), ("direction", "returned_closure_return"), ("relation", rel)],
                                         format!(
                                             "{}: returned closure invocation {}: implementation's closure returned {}; caller must receive {} but received {}",
                                             spec.method,
@@ -355,26 +393,12 @@ pub fn eval(p: &Pair, spec: &CallSpec, st: &mut Stats, counting: bool) -> Vec<Fa
                 (RetOut::Panic(t), _) => {
                     if !arg_fail {
                         // the implementation was entered and did not panic by script: where did the call stop?
-                        let last = events.iter().rev().find(|e| !e.k.starts_with("harness"));
-                        let planned = spec.imp.plans.iter().enumerate().any(|(ai, p)| !p.is_empty() && mi.args.get(ai).map_or(false, |a| a.kind.sig().is_some()));
-                        let mut cl_edits = std::collections::BTreeSet::new();
-                        for a in &mi.args {
-                            if let Some(s) = a.kind.sig() {
-                                for x in &s.args {
-                                    cl_edits.extend(fam.edits_between(&x.ty, kc, ki));
-                                }
-                                cl_edits.extend(fam.edits_between(&s.ret, kc, ki));
-                            }
-                        }
-                        let (dir, ed) = match last {
-                            Some(e) if e.k == "caller.closure" => ("closure_return", joined(&cl_edits)),
-                            Some(e) if e.k.starts_with("impl.call") && planned => ("closure_argument", joined(&cl_edits)),
-                            _ => ("return", joined(&ret_edits)),
-                        };
+                        let dir = stopped_at(&events, spec, Some(mi));
+                        let (ae, re, ce) = all_edits(fam, mc, Some(mi), kc, ki);
                         fails.push(fail(
-                            &[("check", "unexpected_panic"), ("direction", dir), ("relation", rel), ("edits", &ed), ("ret_kind", mi.ret.label())],
+                            &[("check", "unexpected_panic"), ("direction", dir), ("relation", rel)],
                             format!("{}: implementation (v{}) was entered and did not panic, but the caller (v{}) got a panic: {}", spec.method, ki, kc, t),
-                            obs(json!({"returned": spec.imp.ret, "panic": t})),
+                            obs(json!({"returned": spec.imp.ret, "panic": t, "edits": {"arguments": ae, "return": re, "closures": ce}})),
                         ));
                     }
                 }
